@@ -3,6 +3,7 @@ open AcmedVerif.Props.C10
 #print axioms expand_order
 #print axioms expand_order_append
 #print axioms expand_total
+#print axioms expand_limits
 #print axioms expand_rejects_cycles
 #print axioms expand_cycle_error_is_real
 #print axioms call_runs_prefix
